@@ -48,7 +48,7 @@ def match_known(known, prop, sig):
     for e in known:
         if e.get('status') != 'known':
             continue
-        if e['property'] != prop:
+        if e['property'] != prop and e['property'] != '*':
             continue
         pat = e['signature']
         if pat == sig or fnmatch.fnmatchcase(sig, pat):
@@ -57,7 +57,7 @@ def match_known(known, prop, sig):
 
 
 # ---------------------------------------------------------------------- one run, in a forked child
-def _exec_one(scen, case, seed, choices):
+def _exec_one(scen, case, seed, choices, last=True):
     from simos import state
     try:
         res = scen.execute(case, seed, choices)
@@ -71,8 +71,11 @@ def _exec_one(scen, case, seed, choices):
     state.K = None
     # garbage of this run (exception/frame cycles holding Connection objects) must be finalised now,
     # while no kernel is current: collected later it would close descriptors of the next run
-    import gc
-    gc.collect()
+    # (not after the last run of this child: it exits anyway, and collecting half-torn-down ctypes/mmap
+    # objects of a pool run has been seen to crash the interpreter)
+    if not last:
+        import gc
+        gc.collect()
     return res
 
 
@@ -80,8 +83,8 @@ def _child_exec(scen, jobs, wfd):
     out = []
     try:
         faulthandler.enable()
-        for case, seed, choices in jobs:
-            res = _exec_one(scen, case, seed, choices)
+        for n, (case, seed, choices) in enumerate(jobs):
+            res = _exec_one(scen, case, seed, choices, last=(n == len(jobs) - 1))
             out.append(res)
             if res.get('fatal'):
                 break
